@@ -12,6 +12,7 @@ CONSTANTS
   FixF7 = TRUE
   FixN1 = TRUE
   FixN3 = TRUE
+  FixK11 = TRUE
   Vals = {"v0", "v1"}
   Dels = {"d0"}
   Assets = {"ast0", "ast1"}
